@@ -610,8 +610,17 @@ def E_dispatch(repo, clause):
         # extension-derived type strips the dot
         strip = any(isinstance(n, ast.Subscript) and isinstance(n.slice, ast.Slice) and const_value(n.slice.lower) == 1 and n.slice.upper is None
                     for n in fn.own_nodes())
-        obs.append(Ob("E5", clause, fn, fn.node, strip, "type implied by the file extension drops the leading dot", construct="filetype[1:]", slot="%s:ext" % which,
-                      undecided=not any(isinstance(c_, ast.Call) and call_name(c_) == "splitext" for c_ in ast.walk(fn.node))))
+        # which dot: the extension is what follows the LAST dot (os.path.splitext / rsplit / rpartition / Path.suffix); partition / split / find / index take the FIRST
+        first_dot = [c_ for c_ in ast.walk(fn.node) if isinstance(c_, ast.Call) and isinstance(c_.func, ast.Attribute) and c_.func.attr in ("partition", "split", "find", "index")
+                     and c_.args and const_value(c_.args[0]) == "." and not (c_.func.attr == "split" and isinstance(fn.parents.get(c_), ast.Subscript)
+                                                                            and const_value(fn.parents.get(c_).slice) == -1)]
+        if first_dot:
+            obs.append(Ob("E5", clause, fn, first_dot[0], False,
+                          "the file type is taken from `%s`: what follows the FIRST dot of the name - for `water.v2.lmpdat` that is `v2.lmpdat`, not `lmpdat` (os.path.splitext and the command line use the last dot)" % ast.unparse(first_dot[0])[:50],
+                          slot="%s:ext" % which, positive="robust"))
+        else:
+            obs.append(Ob("E5", clause, fn, fn.node, strip, "type implied by the file extension drops the leading dot", construct="filetype[1:]", slot="%s:ext" % which,
+                          undecided=not any(isinstance(c_, ast.Call) and call_name(c_) == "splitext" for c_ in ast.walk(fn.node))))
     # the two dispatchers resolve (file object | path, explicit type | extension) by the SAME prologue: sibling agreement, and each
     # use_or_open call receives (handle, path) in the order of the helper's parameters
     pro = {}
@@ -765,6 +774,70 @@ def _may_depend_on(fn, expr, pname, depth=4):
     return False
 
 
+def _cif_number_helper(outer, tf):
+    """(ok, detail) for a helper of the form `return float(<regex operation on the argument>)`, or None when it has another form."""
+    import re as _re
+    rets = [n for n in tf.own_nodes() if isinstance(n, ast.Return)]
+    if len(rets) != 1 or not (isinstance(rets[0].value, ast.Call) and call_name(rets[0].value) == "float" and len(rets[0].value.args) == 1):
+        return None
+    arg = tf.params[0] if tf.params else None
+    x = rets[0].value.args[0]
+
+    def pattern_of(e):
+        """literal pattern of `re` / a compiled pattern bound once in the helper or the enclosing function"""
+        if isinstance(e, ast.Name) and e.id != "re":
+            for f_ in (tf, outer):
+                ds = [n for n in f_.own_nodes() if isinstance(n, ast.Assign) and len(n.targets) == 1 and isinstance(n.targets[0], ast.Name) and n.targets[0].id == e.id]
+                if len(ds) == 1 and isinstance(ds[0].value, ast.Call) and call_name(ds[0].value) == "compile" and ds[0].value.args and isinstance(const_value(ds[0].value.args[0]), str):
+                    return const_value(ds[0].value.args[0])
+        return None
+
+    def apply(s_):
+        # re.sub(pat, repl, s) / compiled.sub(repl, s)
+        if isinstance(x, ast.Call) and call_name(x) == "sub" and isinstance(x.func, ast.Attribute):
+            base = x.func.value
+            if isinstance(base, ast.Name) and base.id == "re" and len(x.args) == 3 and isinstance(const_value(x.args[0]), str) and isinstance(const_value(x.args[1]), str) \
+                    and isinstance(x.args[2], ast.Name) and x.args[2].id == arg:
+                return _re.sub(const_value(x.args[0]), const_value(x.args[1]), s_)
+            pat = pattern_of(base)
+            if pat is not None and len(x.args) == 2 and isinstance(const_value(x.args[0]), str) and isinstance(x.args[1], ast.Name) and x.args[1].id == arg:
+                return _re.sub(pat, const_value(x.args[0]), s_)
+            raise ValueError("sub form")
+        # <pattern>.match(s).group(k) / re.match(pat, s).group(k)
+        if isinstance(x, ast.Call) and call_name(x) == "group" and isinstance(x.func, ast.Attribute) and isinstance(x.func.value, ast.Call):
+            m = x.func.value
+            k = const_value(x.args[0]) if x.args else 0
+            how = call_name(m)
+            if how in ("match", "search", "fullmatch") and isinstance(m.func, ast.Attribute):
+                base = m.func.value
+                if isinstance(base, ast.Name) and base.id == "re" and len(m.args) == 2 and isinstance(const_value(m.args[0]), str):
+                    pat = const_value(m.args[0])
+                else:
+                    pat = pattern_of(base)
+                if pat is None:
+                    raise ValueError("pattern not literal")
+                mo = getattr(_re, how)(pat, s_)
+                if mo is None:
+                    raise KeyError("no match")
+                return mo.group(k)
+        raise ValueError("form")
+    reps = [("0.3471", 0.3471), ("0.3471(12)", 0.3471), ("-1.5", -1.5), ("12", 12.0), ("1.2500e+01", 12.5), ("2.5000E-01(3)", 0.25), ("90", 90.0)]
+    try:
+        for s_, want in reps:
+            try:
+                got = float(apply(s_))
+            except KeyError:
+                return False, "the pattern does not match the numeral %r at all" % s_
+            if abs(got - want) > 1e-12:
+                return False, "the numeral %r is read as %r, not %r: %s" % (s_, got, want, "the exponent is cut off (values in scientific notation lose their magnitude)" if "e" in s_.lower() else
+                                                                              "the standard uncertainty is not removed correctly")
+        return True, "plain numerals, numerals with a parenthesised standard uncertainty, signs and exponents are all read with their value (%d representatives)" % len(reps)
+    except ValueError:
+        return None
+    except Exception:
+        return None
+
+
 def E2_cif_tags(repo, clause):
     obs = []
     w = repo.fn("Atoms.save_p1_cif")
@@ -804,6 +877,16 @@ def E2_cif_tags(repo, clause):
                         for s_ in ast.walk(_fold_label_comprehension(d_.value) if isinstance(d_.value, ast.ListComp) else d_.value):
                             if isinstance(s_, ast.Constant) and isinstance(s_.value, str) and s_.value.startswith("_"):
                                 handled_lists.append(s_.value)
+    # extra columns = loop keys that are not EXACTLY one of the handled tags; a prefix test also swallows extra columns whose names merely begin like a handled tag
+    for c_ in calls_in(r):
+        if isinstance(c_.func, ast.Attribute) and c_.func.attr in ("startswith", "endswith") and c_.args:
+            a0 = expand(r, c_.args[0])
+            lits = [x_.value for x_ in ast.walk(a0) if isinstance(x_, ast.Constant) and isinstance(x_.value, str)]
+            if lits and all(t.startswith(("_atom_site", "_geom_")) for t in lits):
+                obs.append(Ob("E2", clause, r, c_, False,
+                              "handled tags are recognised by `%s` - a PREFIX test: an extra column such as `_atom_site_label_component_0` or `_atom_site_fract_x_esd` begins like a handled tag and is "
+                              "silently dropped on reading (the extra columns are the loop keys MINUS the exact handled tags)" % ast.unparse(c_)[:60],
+                              slot="handled-tags-exact", positive="robust"))
     mixed = sorted({t for t in handled_lists if t != t.lower()})
     obs.append(Ob("E2", clause, r, r.node, bool(handled_lists) and not mixed,
                   "tags removed from the loop's key list are spelled in lower case, as the CIF library reports keys (%d tags; mixed-case: %s)" % (len(set(handled_lists)), mixed or "none"),
@@ -878,7 +961,14 @@ def E2_cif_tags(repo, clause):
     tf = repo.nested(r, "tofloat")
     strips = any(isinstance(c, ast.Call) and call_name(c) == "sub" and c.args and isinstance(c.args[0], ast.Constant) and "\\(" in c.args[0].value
                  for c in ast.walk(tf.node))
-    obs.append(Ob("E2", clause, tf, tf.node, strips, "numeric helper strips a parenthesised standard uncertainty before float()", construct="def tofloat", slot="tofloat"))
+    # what the helper does to a CIF number is decided on representative numerals: plain, with s.u., signed, with exponent, with exponent and s.u.
+    # (the regular expression is a literal of the source; applying it to these strings is constant folding, nothing of the package runs)
+    sem_tf = _cif_number_helper(r, tf)
+    if sem_tf is not None:
+        ok_tf, why_tf = sem_tf
+        obs.append(Ob("E2", clause, tf, tf.node, ok_tf, "numeric helper: %s" % why_tf, construct="def tofloat", slot="tofloat", positive="robust" if not ok_tf else False))
+    else:
+        obs.append(Ob("E2", clause, tf, tf.node, strips, "numeric helper strips a parenthesised standard uncertainty before float()", construct="def tofloat", slot="tofloat"))
     raw = [c for c in calls_in(r) if call_name(c) == "float"]
     obs.append(Ob("E2", clause, r, raw[0] if raw else r.node, not raw, "no raw float() conversion in the reader body (all go through tofloat): %d found" % len(raw),
                   construct="float(...)" if not raw else None, slot="no-raw-float", positive=bool(raw)))
